@@ -181,6 +181,8 @@ def quant_lower(ctx):
                 _group(g, "identity|?-on-nullable", True, "", loc)
             elif pp.anchor:
                 pass  # QUANT-ANCHOR
+            elif pp.ml is True and pp.lenpos is False and (pp.q == "+" or (pp.q == "{" and pp.cmp.get(("min", 0)) is False)):
+                _group(g, "identity|zero-width-min>=1", True, "", loc)
             else:
                 _group(g, "quantifier-dropped|q=%s" % pp.q, False, "the quantifier '%s' is consumed but the bare operand is returned (%s)" % (pp.q, _desc(pp)), loc)
         elif pp.kind == "Nothing":
@@ -213,7 +215,8 @@ def zero_width_nothing(ctx):
         elif pp.anchor:
             _group(g, "anchor|q=%s" % pp.q, min0, "a quantified anchor is replaced by Nothing although the quantifier '%s' requires at least one occurrence" % pp.q, loc)
         elif pp.ml is True and pp.lenpos is False:
-            _group(g, "zero-length-body|q=%s" % pp.q, min0, "a zero-length operand under quantifier '%s' is replaced by Nothing although the quantifier may require at least one occurrence: its anchors are lost (r{n,..} with n>=1 over a zero-width r is r, not the empty regex)" % pp.q, loc)
+            # a zero-length operand that matches the empty string anywhere is itself equivalent to Nothing
+            _group(g, "zero-length-body|q=%s" % pp.q, min0 or pp.nullable is True, "a zero-length operand under quantifier '%s' is replaced by Nothing although the quantifier may require at least one occurrence: its anchors are lost (r{n,..} with n>=1 over a zero-width r is r, not the empty regex)" % pp.q, loc)
         else:
             _group(g, "other|q=%s" % pp.q, False, "operand replaced by Nothing without justification (%s)" % _desc(pp), loc)
     return _emit(g)
